@@ -155,7 +155,8 @@ check("C09", "model_checking",
       "(TLC) has one state per (call, assignment): no valid assignment lies below the objective, the reported solutions are valid "
       "minimisers over exactly the model's variables, with all_solutions every valid minimiser is reported exactly once, objective None "
       "iff nothing is valid, constant models, argument unchanged.",
-      "models with <= 4 variables (every assignment enumerated by TLC), 2500 quick / 15000 thorough calls; the constant-model sentence "
+      "exhaustive over the TLC-emitted universe of spec/GenPoly.tla (256 / 625 polynomials x 4 functions x 2 kinds x all_solutions x 3 "
+      "predicates) plus seeded models with <= 4 variables (every assignment enumerated by TLC), 2500 / 15000 calls; the constant-model sentence "
       "takes precedence over the None sentence where they compete; trusted: TLC, record encoder",
       "real calls recorded; solver contract written in TLA+ and evaluated by TLC over all assignments", "DESIGN 3 C09")
 check("C15", "exploration",
